@@ -17,6 +17,7 @@ func init() {
 			"every value EncodeStack returns has len ≤ maxNameLen (length algebra on each return edge) and the truncated form ends with the visible marker",
 			"one separator: every site that decides 'stack counter or not' or splits off the counter name uses the same newline constant",
 			"DecodeStack is the identity on names without a newline and total (bounds/loops obligations)",
+			"ditto state: after every frame EncodeStack's remembered import path is that frame's path (what DecodeStack remembers after the corresponding line), on every path to the next frame",
 			"cache: a cached counter is reused only when the full PC slices are equal (length and every element), the new entry stores the PCs it encoded, all under the counter's mutex",
 		},
 		notDecided: []string{"DecodeStack(EncodeStack(frames)) equals the uncompressed rendering", "injectivity on non-truncated stacks"},
@@ -89,6 +90,7 @@ func runC15(c *Ctx) {
 	fmt.Sscan(m.ConstVal("internal/counter", "maxNameLen"), &maxName)
 
 	c15Length(c, m, "C15.length")
+	c15DittoState(c, m)
 
 	// ---- separator ---------------------------------------------------------------
 	sepSites := 0
@@ -314,4 +316,78 @@ func runC15(c *Ctx) {
 		}
 	}
 	r.Check("C15.cache-key", "StackCounter.Inc/lookup-or-create runs under c.mu", m.Pos(inc.Pos()), okMu, "Lock, deferred Unlock, and every access to c.stacks after the Lock")
+}
+
+// c15DittoState: the encoder abbreviates a frame's import path to the ditto mark when it equals
+// the path it remembers, and the decoder expands the mark from the path IT remembers (the last
+// explicit one). The two agree only if, after every frame, the encoder remembers that frame's
+// path: every value carried to the next iteration is the frame's path itself, or the old value
+// on an edge where it was found equal to the frame's path.
+func c15DittoState(c *Ctx, m *Module) {
+	r := c.R
+	enc := m.Func("internal/counter", "EncodeStack")
+	n := 0
+	for _, l := range naturalLoops(enc) {
+		for _, in := range l.header.Instrs {
+			h, ok := in.(*ssa.Phi)
+			if !ok || !isStringy(h.Type()) {
+				continue
+			}
+			// the comparison path == remembered
+			var cmp *ssa.BinOp
+			var p0 ssa.Value
+			for _, u := range referrers(h) {
+				if bo, ok := u.(*ssa.BinOp); ok && (bo.Op == token.EQL || bo.Op == token.NEQ) && l.blocks[bo.Block()] {
+					other := bo.X
+					if other == ssa.Value(h) {
+						other = bo.Y
+					}
+					if strings.Contains(describe(other), "internal/counter.cutLastDot(") {
+						cmp, p0 = bo, other
+					}
+				}
+			}
+			if cmp == nil {
+				continue
+			}
+			n++
+			bad := ""
+			seen := map[*ssa.Phi]bool{}
+			var leaf func(e ssa.Value, pred, blk *ssa.BasicBlock)
+			leaf = func(e ssa.Value, pred, blk *ssa.BasicBlock) {
+				if phi, ok := e.(*ssa.Phi); ok && phi != h && l.blocks[phi.Block()] {
+					if seen[phi] {
+						return
+					}
+					seen[phi] = true
+					for i, e2 := range phi.Edges {
+						leaf(e2, phi.Block().Preds[i], phi.Block())
+					}
+					return
+				}
+				switch {
+				case e == p0:
+				case e == ssa.Value(h):
+					facts := append(append([]Fact{}, blockFacts(pred)...), lastBranchFact(pred, blk)...)
+					okEq := hasFact(facts, func(f Fact) bool {
+						bo, ok := f.Cond.(*ssa.BinOp)
+						return ok && bo == cmp && assertsEq(bo, f.Pol)
+					})
+					if !okEq {
+						bad += " the old value is carried over on a path where it was not found equal to the frame's path (from block " + fmt.Sprint(pred.Index) + ");"
+					}
+				default:
+					bad += " " + shortDesc(describe(e)) + " is remembered instead of the frame's path;"
+				}
+			}
+			for i, e := range h.Edges {
+				if l.blocks[l.header.Preds[i]] {
+					leaf(e, l.header.Preds[i], l.header)
+				}
+			}
+			r.Check("C15.separator-agreement", "EncodeStack/remembers each frame's path for the ditto mark", m.Pos(h.Pos()), bad == "",
+				"DecodeStack expands a ditto mark from the last explicit path, so after EVERY frame the encoder must remember that frame's path:"+bad)
+		}
+	}
+	r.Check("C15.separator-agreement", "EncodeStack/has the ditto state", m.Pos(enc.Pos()), n == 1, fmt.Sprintf("%d remembered-path variables compared with the frame's path", n))
 }
